@@ -205,27 +205,45 @@ def loo(S, n, lik, priors):
     bs = ()
     x, y, Y, likelihood, model, table, Gs, Gc = _build(S, n, lik, "constant", priors, bs)
     mod = gpytorch.mlls.LeaveOneOutPseudoLikelihood(likelihood, model)
+    exact = gpytorch.mlls.ExactMarginalLogLikelihood(likelihood, model)
+    y2 = S.randn(2, n)
+    Y2 = S.sym_tensor(y2, "yb")
     with S.mode():
         J, K, Sd = _fill_table(S, table, Gs, Gc, likelihood, x, n, bs)
         mx = as_sym_arr(SH.get(model.mean_module(x)))
         val = mod(model(x), y)
         terms = _prior_terms(model, likelihood, bs)
+        # a batch of target vectors scored against the same (un-batched) function distribution: one value per vector
+        val_b = S.must_not_raise("LOO of a batch of target vectors on shared inputs", lambda: mod(model(x), y2))
+        mll_b = S.must_not_raise("exact MLL of a batch of target vectors on shared inputs", lambda: exact(model(x), y2))
     A = J
-    tot = Sym.const(0.0)
-    for i in range(n):
-        rest = [j for j in range(n) if j != i]
-        if rest:
-            Arr = A[np.ix_(rest, rest)]
-            rhs = np.concatenate([(Y[rest] - mx[rest]).reshape(-1, 1), A[np.ix_(rest, [i])]], axis=1)
-            sol = gauss_inverse_solve(Arr, rhs)
-            mu = mx[i] + (A[np.ix_([i], rest)] @ sol[:, :1])[0, 0]
-            s2 = A[i, i] - (A[np.ix_([i], rest)] @ sol[:, 1:])[0, 0]
-        else:
-            mu, s2 = mx[i], A[i, i]
-        d = Y[i] - mu
-        tot = tot + (sym_log(s2) + d * d / s2) * Sym.const(-0.5)
-    ref = (tot + _sum_prior(terms, (), ())) / Sym.const(float(n)) - Sym.const(0.5 * LOG2PI)
-    S.prove_eq(val, ref, "loo value")
+
+    def loo_ref(Yv):
+        tot = Sym.const(0.0)
+        for i in range(n):
+            rest = [j for j in range(n) if j != i]
+            if rest:
+                Arr = A[np.ix_(rest, rest)]
+                rhs = np.concatenate([(Yv[rest] - mx[rest]).reshape(-1, 1), A[np.ix_(rest, [i])]], axis=1)
+                sol = gauss_inverse_solve(Arr, rhs)
+                mu = mx[i] + (A[np.ix_([i], rest)] @ sol[:, :1])[0, 0]
+                s2 = A[i, i] - (A[np.ix_([i], rest)] @ sol[:, 1:])[0, 0]
+            else:
+                mu, s2 = mx[i], A[i, i]
+            d = Yv[i] - mu
+            tot = tot + (sym_log(s2) + d * d / s2) * Sym.const(-0.5)
+        return (tot + _sum_prior(terms, (), ())) / Sym.const(float(n)) - Sym.const(0.5 * LOG2PI)
+
+    S.prove_eq(val, loo_ref(Y), "loo value")
+    S.check_concrete(tuple(val_b.shape) == (2,), "LOO of a (2, n) batch of target vectors has shape (2,)", str(tuple(val_b.shape)))
+    S.prove_eq(val_b, np.array([loo_ref(Y2[0]), loo_ref(Y2[1])], dtype=object), "loo value per target vector (shared inputs)")
+    from symten.ops import _det
+    ref_m = []
+    for b in range(2):
+        r = (Y2[b] - mx).reshape(n, 1)
+        quad = np.sum(r * gauss_inverse_solve(A, r))
+        ref_m.append(((quad + sym_log(_det(A)[()]) + Sym.const(n * LOG2PI)) * Sym.const(-0.5) + _sum_prior(terms, (), ())) / Sym.const(float(n)))
+    S.prove_eq(mll_b, np.array(ref_m, dtype=object), "exact MLL per target vector (shared inputs)")
 
 
 def sum_mll(S, n1, n2):
